@@ -289,6 +289,17 @@ func RunSession(s Session) mon.Result {
 	if s.Version == "1.1" {
 		caps = append(caps, ncsim.Cap11)
 	}
+	// a call makes 2 (1.0: request, return) or 3 (1.1: request, return, return) transport writes
+	maxWrites := 2
+	if s.Version == "1.1" {
+		maxWrites = 3
+	}
+	s.Calls = append([]Call(nil), s.Calls...)
+	for i := range s.Calls {
+		if s.Calls[i].AfterWrites > maxWrites {
+			s.Calls[i].AfterWrites = maxWrites
+		}
+	}
 	srv := &ncsim.Server{HelloBytes: ncsim.Hello(caps, "7"), Echo: s.Echo, NoEchoMark: s.Echo && s.NoEchoMark}
 	h := &harness{s: s, srv: srv, cur: -1, recs: make([]callRec, len(s.Calls)), prevOutcome: "open"}
 	srv.OnMsg = h.onMsg
@@ -535,8 +546,11 @@ func RunSession(s Session) mon.Result {
 			sawTimeout = true
 			if call.Plan == "now" {
 				hist = append(hist, desc+" → TIMEOUT")
-				if rc.reqSeen == 0 || !rc.sent {
+				if rc.reqSeen == 0 {
 					return bad("c08/request-missing", "call %d (%s) timed out and the server never saw a request for it", k, call.Kind)
+				}
+				if !rc.sent {
+					return bad("c08/harness-reply-not-sent", "call %d (%s): the model never sent the planned-now reply (after_writes=%d)", k, call.Kind, call.AfterWrites)
 				}
 				var tDel time.Time
 				var ok bool
